@@ -28,6 +28,13 @@ Reading of the property (round-two audit; clause → theorem):
                                                          reused_future_no_stale
          two-buffer future MPIFuture<R,S>                two_buffer_same_protocol (all theorems above transfer; the send
                                                          object is kept), send_data_once, send_data_twice_undefined
+  round four (tie: `Gen/C19.lean` is regenerated from the source on every run; the theorems are about the generated text):
+         guard bodies and constructors                   gen_guard_is_model, gen_guard_ctor_arms, unarmed_finalize_never_throws
+         members of the four future classes, buffers     gen_future_is_model, gen_pseudo_is_model, gen_erased_is_model
+         every call history of the generated members     gen_histories_are_model
+         move assignment / move construction             gen_moves_are_model
+         "a future returned by a non-blocking operation is valid …": which future each non-blocking member returns
+                                                         gen_operations_start, gen_seq_operations_start
 -/
 import DuneVerif.Proofs.C19Guard
 import DuneVerif.Proofs.C19Future
@@ -760,5 +767,48 @@ theorem gen_erased_is_model {σ : Type} (inner : σ → FOp → FObs × σ) (s :
 example : genErased PseudoFut.step Gen.Erased.get (none : Option PseudoFut) = some (.errInvalid, none) := by decide
 example : genErased PseudoFut.step Gen.Erased.get (some (PseudoFut.start [5])) =
     some (.data [5], some { valid := false, data := [5] }) := by decide
+
+/-- The non-blocking members of `Communication<MPI_Comm>` as read from mpicommunication.hh today: each posts exactly one
+operation — the `MPI_I*` function of its name, on the buffers the future owns (`send_data_` first, `data_` second for
+the two-buffer operations, `MPI_IN_PLACE` + `data_` for the in-place reduction) —, stores the request in the future and
+returns that future; and for ALL parameter values the future it returns is the start state the theorems above speak
+about: valid, request pending, `data_` = the forwarded payload / `data_out`, `send_data_` = `data_in`
+(`MPIFuture<TOUT,TIN> future(forward(data_out), forward(data_in))`: receive object first). -/
+theorem gen_operations_start (d s r x inc : List Int) :
+    (Gen.Ops.mpi.map fun op => (op.name, op.call, op.bufs, op.reqInFuture && op.returnsFuture)) =
+      [("ibarrier", "MPI_Ibarrier", [], true), ("ibroadcast", "MPI_Ibcast", [.data], true),
+       ("igather", "MPI_Igather", [.sendData, .data], true), ("iscatter", "MPI_Iscatter", [.sendData, .data], true),
+       ("iallgather", "MPI_Iallgather", [.sendData, .data], true), ("iallreduce", "MPI_Iallreduce", [.sendData, .data], true),
+       ("iallreduce", "MPI_Iallreduce", [.inPlace, .data], true), ("isend", "MPI_Isend", [.data], true),
+       ("irecv", "MPI_Irecv", [.data], true)] ∧
+    List.zipWith (fun op args => Interp.mpiOpStart op args inc) Gen.Ops.mpi
+        [[], [d, r], [s, d, r], [s, d, r], [s, d], [s, d], [d], [d, r, x], [d, r, x]] =
+      [some (.mpiVoid MpiVoid.start), some (.mpiOne (MpiFut.start d inc)),
+       some (.mpiTwo (MpiFut2.start d inc s)), some (.mpiTwo (MpiFut2.start d inc s)),
+       some (.mpiTwo (MpiFut2.start d inc s)), some (.mpiTwo (MpiFut2.start d inc s)),
+       some (.mpiOne (MpiFut.start d inc)), some (.mpiOne (MpiFut.start d inc)), some (.mpiOne (MpiFut.start d inc))] :=
+  ⟨by decide, rfl⟩
+
+example : (Gen.Ops.mpi[2]?.bind fun op => Interp.mpiOpStart op [[5], [-777, -777], [0]] [5, 7]) =
+    some (.mpiTwo (MpiFut2.start [-777, -777] [5, 7] [5])) := by decide
+
+/-- The non-blocking members of the sequential `Communication` as read from communication.hh today, for ALL parameter
+values: `ibarrier` returns a valid `PseudoFuture<void>`, `ibroadcast` and the in-place `iallreduce` a future holding
+the payload, `igather`/`iallgather` the output object with its first entry replaced by the input, `iscatter` the first
+entry of the input, the two-argument `iallreduce` the input — the data "of the completed operation" on one process. -/
+theorem gen_seq_operations_start (x o : Int) (rest data inp out root : List Int) :
+    Gen.Ops.seq.map (fun op => (op.name, op.arity)) =
+      [("ibarrier", 0), ("ibroadcast", 2), ("igather", 3), ("iscatter", 3), ("iallgather", 2), ("iallreduce", 2),
+       ("iallreduce", 1)] ∧
+    List.zipWith Interp.seqOpStart Gen.Ops.seq
+        [[], [data, root], [[x], o :: rest, root], [x :: rest, out, root], [[x], o :: rest], [inp, out], [data]] =
+      [some (.pseudoVoid PseudoVoid.start), some (.pseudoOne (PseudoFut.start data)),
+       some (.pseudoOne (PseudoFut.start (x :: rest))), some (.pseudoOne (PseudoFut.start [x])),
+       some (.pseudoOne (PseudoFut.start (x :: rest))), some (.pseudoOne (PseudoFut.start inp)),
+       some (.pseudoOne (PseudoFut.start data))] :=
+  ⟨by decide, rfl⟩
+
+example : (Gen.Ops.seq[3]?.bind fun op => Interp.seqOpStart op [[4, 5, 6], [-777], [0]]) = some (.pseudoOne (PseudoFut.start [4])) := by
+  decide
 
 end DV.C19
